@@ -5,7 +5,8 @@ SAFETY_KINDS = {"overflow", "div-by-zero", "bounds", "precondition", "shift", "a
 PROPS = {
     "C06": {
         "witness_always": ["common_scaled", "texlang_parse_num", "stdlib_totality"],
-        "witness_bound": {"common_scaled": "print->scan round trip: ALL 2^16 fractions x 9 integer parts x both signs (display_no_units / parse_no_units on the real code); boundary lattices for the arithmetic functions"},
+        "witness_bound": {"common_scaled": "print->scan round trip: ALL 2^16 fractions x 9 integer parts x both signs (display_no_units / parse_no_units on the real code); boundary lattices for the arithmetic functions",
+                      "stdlib_totality": "real VM + stdlib against values computed by the driver with TeX's integer algorithms: \\advance / \\multiply / \\divide on \\count over an 11 x 10 grid of operands incl. the i32 limits; \\advance on glue over 7 x 7 x 2 stretch / shrink components (TeX 1239); 12 alphabetic constants; 613 programs with INTERNAL quantities (the trusted oracle parse_internal_number of the Verus units, run for real): \\count, \\dimen, \\skip registers, \\chardef and \\mathchardef names and \\catcode entries used as integer, as dimension, as glue and as the unit after a decimal coefficient, each with 0-3 signs, 14 values per kind up to the limits; \\multiply / \\divide on \\dimen and \\skip (every component, truncation toward zero); the nine units and `true`; codes beyond their range (\\catcode, \\chardef, \\mathchardef: the documented error, never a value taken modulo 256)"},
         "level": "proof",
         "verus": ["common_scaled", "texlang_parse_int", "texlang_parse_keyword", "texlang_parse_dimen", "texlang_parse_glue", "stdlib_math", "stdlib_mathvar"],
         "kani": [],
@@ -170,7 +171,8 @@ PROPS["C09"] = {
     "verus": ["common_scaled", "texlang_parse_int", "texlang_parse_keyword", "texlang_parse_dimen", "texlang_parse_glue", "stdlib_math", "stdlib_mathvar", "stdext_groupingmap", "stdext_kmp", "texlang_savestack", "texlang_cmdmap", "texlang_vmgroups", "stdlib_prefix", "stdlib_cond", "stdlib_expandafter", "texlang_macro", "texlang_macrocall", "stdlib_def", "stdlib_defprim", "texlang_streams"],
     "kani": [],
     "witness_always": ["texlang_parse_num", "stdlib_totality"],
-    "witness_fns": {"texlang_parse_num": ["parse_impl", "parse_constant", "scan_dimen"]},
+    # C09 judges the panics (fn "run"); the VALUES the same driver compares with TeX's are C06's
+    "witness_fns": {"texlang_parse_num": ["parse_impl", "parse_constant", "scan_dimen"], "stdlib_totality": ["run"]},
     "witness_bound": {"stdlib_totality": "real VM + stdlib: 12 alphabetic constants (TeX 442: the token after ` is read without expansion - macro, primitive, undefined, active character); 9 extreme \\count x 26 uses, 7 extreme \\dimen x 20 uses, \\the on 7 kinds of non-variables, 60 erroring programs incl. non-ASCII lines, a non-ASCII OFFENDING token, the ^^ notation at the end of a line / of the input with and without an end-of-line character, and inputs that END inside a construct after multi-byte lines, each in all four interaction modes and by default (error rendered to text); primitive grid: each of 51 installed primitives x 62 argument shapes x {batch mode, default}, every ordered pair of primitives, and every primitive followed by \\noexpand / \\expandafter and a primitive or macro (14331 programs); 15000 (thorough: 120000) pseudo-random token soups of <= 10 tokens over a 91-word vocabulary (primitives incl. \\input / \\openin / \\read / \\def, three macros, braces, numbers at the limits, units, #, ~, line ends, ^^ forms, non-ASCII) in batch, scroll, nonstop and errorstop mode in turn: success or structured error, never a panic", "texlang_parse_num": "real VM scanners on numbers at and beyond every limit (i32 boundaries in 3 radices, dimensions at +-2^30 sp, character codes incl. surrogates): value or recoverable error, never a panic"},
     "unverified_callers": [
         "FUNCTIONS UNDER CONTRACT ONLY: the safety obligations (no overflow, out-of-bounds, failed unwrap/expect, unreachable!, division by zero, for all inputs meeting the stated precondition) of the functions listed in coverage.functions_under_contract. NOT covered: VM::run_impl, the.rs, error rendering (error/display.rs), filelocation.rs, every primitive not listed - 'never panics' is NOT claimed for the interpreter as a whole",
